@@ -91,7 +91,8 @@ Lemma bump_class c t :
   bump c t = match bclass_of t with
              | BOpen k => shift k 1 c | BClose k => shift k (-1) c | BAtom => c end.
 Proof.
-  destruct c as [[br bk] pa]. unfold bump, bclass_of, is_function. destruct t as [y rw v l cl]; cbn [val ty]. cbv zeta.
+  destruct c as [[br bk] pa]. unfold bump, bclass_of, is_function, is_ident. destruct t as [y rw v l cl]; cbn [val ty]. cbv zeta.
+  destruct (eqs y (s "IDENT")) eqn:E0; [reflexivity|].
   destruct (eqs v (s "{")) eqn:E1; [reflexivity|].
   destruct (eqs v (s "}")) eqn:E2; [reflexivity|].
   destruct (eqs v (s "[")) eqn:E3; [reflexivity|].
@@ -104,8 +105,9 @@ Lemma start_count_class c t :
   (forall k, bclass_of t <> BClose k) ->
   start_count c t = bump c t.
 Proof.
-  destruct c as [[br bk] pa]. unfold start_count, bump, bclass_of, is_function.
+  destruct c as [[br bk] pa]. unfold start_count, bump, bclass_of, is_function, is_ident.
   destruct t as [y rw v l cl]; cbn [val ty]. cbv zeta. intros H.
+  destruct (eqs y (s "IDENT")) eqn:E0; [reflexivity|].
   destruct (eqs v (s "{")) eqn:E1.
   { apply eqs_true in E1; subst v. reflexivity. }
   destruct (eqs v (s "}")) eqn:E2; [exfalso; eapply H; reflexivity|].
